@@ -8,16 +8,20 @@ def chk(pid, engine, cat, text, note, tech, ref):
                    "evidence_file": "/verif/evidence/%s.json" % pid, "replay_cmd_template": "./check %s --replay {path}" % pid, "engine": engine,
                    "level_claimed": {"category": cat, "text": text, "design_ref": ref}, "level_note": note, "technique": tech})
 
-HIST_NOTE = ("The library is single-threaded here, so the schedule/fault half of the technique contributes only injected rejected operations "
-             "(atomicity oracle), seeded map order and the scheduler for async operations inside histories; the rest is conformance checking of "
-             "seeded operation histories against an executable reference model (S3 ShardStore style). Trusts: the reference model (DESIGN.md appendix B), "
-             "the rewrite rules (fidelity-tested). Sampled, not exhaustive; bounds: heap <= 32 containers, <= 16 slots, histories <= 40 (quick) / 200 (thorough) steps.")
+HIST_NOTE = ("The library is single-threaded here, so the schedule/fault half of the technique contributes injected rejected operations "
+             "(atomicity oracle), seeded map order, the scheduler for async operations inside histories, simulated time passing between operations and "
+             "garbage collections at drawn points; the rest is conformance checking of seeded operation histories against an executable reference model "
+             "(S3 ShardStore style). A third of the histories read the whole heap only after every k-th operation (sparse reads); observe-mutate-observe "
+             "sandwiches on one container are generated on purpose. Trusts: the reference model (DESIGN.md appendix B), the rewrite rules (fidelity-tested). "
+             "Sampled, not exhaustive; typical heaps hold up to 32 containers of up to 16 slots, size classes go up to 70000 elements and 16385 containers; "
+             "histories have up to 40 (quick) / 200 (thorough) steps. A run that does not come back within the watchdog and not within 120 s alone either "
+             "is reported as a violation (no-termination); everything else the watchdog sees is exit 2.")
 HIST_TECH = "deterministic simulation: seeded operation histories with injected failing operations against a reference model, whole-heap invariant after every step, minimised replayable traces"
 
 chk("C04", "disk", "fault_enumeration",
-    "Writer/disk/reader simulation: documents serialised by the library itself are stored on a simulated (and a real) disk; every torn-write cut point of every sampled document is enumerated and must be rejected, ill-formed UTF-8 is injected at drawn positions and must be rejected, storage corruption (bit flips, lost/duplicated spans, zeroed tails, garbage) and read faults (ENOENT, EACCES, EISDIR, EIO with partial data) are injected and the outcome must be total, exclusive, repeatable and identical between ParseFile and ParseObject. Enumeration of cut points per document is exhaustive; documents and corruptions are sampled.",
-    "Trusts: os.ReadFile replacement rule R4 (ParseFile is also run against a real temporary directory, exclusively so when ParseFile no longer goes through os.ReadFile), the generator of documents (library's own String()). Cut points exhaustive for documents up to 1 KiB, sampled above; documents, corruptions, token soups, re-encodings and environments (locale, time zone) sampled. A run that does not terminate is re-run alone for 120 s before it is reported.",
-    "deterministic simulation: simulated disk with torn writes at every offset, stored-byte corruption and read faults, writer/reader oracle", "DESIGN.md §3 C04, appendix D")
+    "Writer/disk/reader simulation: documents serialised by the library itself (compact, pretty-printed, re-spaced or with foreign escape spellings) are stored on a simulated (and a real) disk; every torn-write cut point of every sampled compact document is enumerated and must be rejected, ill-formed UTF-8 is injected at drawn positions and must be rejected, storage corruption (bit flips, lost/duplicated spans, zeroed tails, garbage, re-encodings) and read faults (ENOENT, EACCES, EISDIR, EIO with partial data; short reads for trees that read through os.Open) are injected and the outcome must be total, exclusive, repeatable and identical between ParseFile and ParseObject, also for several simulated clients parsing different inputs at the same time (a second phase runs that class under the race detector). Enumeration of cut points per document is exhaustive; documents and corruptions are sampled.",
+    "Trusts: the os.ReadFile / os.Open replacement rules R4 and R14 (ParseFile is also run against a real temporary directory, exclusively so when the tree reads files in a way the rules do not cover), the generator of documents (library's own String()/FormatString()). Cut points exhaustive for documents up to 1 KiB, sampled above; documents, corruptions, token soups, re-encodings, 65535..131073-value and many-distinct-token documents and environments (locale, time zone) sampled. A run that does not terminate is re-run alone for 120 s before it is reported.",
+    "deterministic simulation: simulated disk with torn writes at every offset, stored-byte corruption, read faults and short reads, concurrent simulated readers, writer/reader oracle", "DESIGN.md §3 C04, appendix D, §11")
 chk("C05", "hist", "exploration",
     "Seeded programs of list operations (valid and invalid arguments, rejected values as injected faults, lists grown past capacity, containers nested acyclically) run against the real List and a sequence-with-references model; after every step every live container must show exactly what the model predicts (whole-heap invariant), panics must occur exactly on out-of-domain indices/ranges, and a panicking single-index operation must leave every list unchanged.",
     HIST_NOTE, HIST_TECH, "DESIGN.md §2, §3 C05")
@@ -38,7 +42,7 @@ chk("C13", "hist", "exploration",
     HIST_NOTE, HIST_TECH, "DESIGN.md §2, §3 C13")
 chk("C15", "async", "exploration",
     "Seeded search over goroutine schedules: every ForEachAsync/MapAsync call and every set of concurrent read-only clients runs under a token-passing scheduler that decides each interleaving from VERIF_SEED; the recorded history is checked for exactly-once delivery and return-after-all-callbacks, MapAsync is compared with Map, reader results with their sequential values, and ThreadSanitizer judges the library's own synchronisation on the serialised execution. Sampling of an unbounded schedule space is the right level: the property quantifies over all interleavings.",
-    "Trusts: the reading of sync.WaitGroup/Mutex/RWMutex/Once, channel, select and timer semantics in simrt, ThreadSanitizer's happens-before analysis (bounded history), the rewrite rules R1-R3, R6-R9 (fidelity-tested with the repository's own tests; behaviour-preserving refactorings incl. channel- and select-based ones stay green). Sampled, not exhaustive; containers of 0..4097 elements, 2..10 reader clients, simulated clock with injected stalls. Reaching the step bound is inconclusive (exit 2), never a violation; sync.Cond, tickers and context are not simulated (reported as unmanaged, a hang is then inconclusive).",
+    "Trusts: the reading of sync.WaitGroup/Mutex/RWMutex/Once, channel, select and timer semantics in simrt, ThreadSanitizer's happens-before analysis (bounded history), the rewrite rules R1-R3, R6-R13 (sync, go, map range, channels, select, Once/Cond, time, context, env, atomics, maps iterators; fidelity-tested with the repository's own tests; behaviour-preserving refactorings incl. channel- and select-based ones stay green). Sampled, not exhaustive; containers of 0..4097 elements, 2..10 reader clients, simulated clock with injected stalls; containers are also met cold (never read before the call / before the concurrent phase) and between sequential mutations. Reaching the step bound or the wall-clock watchdog is inconclusive (exit 2), never a violation; constructs the rewriter does not manage (sync/atomic values, reflect map iteration, labelled select) are reported in the evidence file.",
     "deterministic simulation: seeded token-passing scheduler over rewritten sync/go/map-range seams, history checking, happens-before race detection on the serialised run", "DESIGN.md §1.2, §3 C15")
 chk("C19", "hist", "exploration",
     "User types embedding a List/Object one and two levels deep are ordinary citizens of the simulated heap: every fluent method (enumerated from the interfaces by reflection) must return the registered outer value, Ego too, and stored derived values must come back identical from Get, typed getters, GetTF, typed iteration, typed slices, typed filters, Values and Dict, inside arbitrary histories.",
@@ -60,7 +64,7 @@ pending = [(c["property_id"], "claimed in DESIGN.md; check under construction") 
 checks = [c for c in checks if c["property_id"] in have]
 m = {"version": 1, "setup_cmd": "./check setup",
      "hooks": {"guard": "none (no in-repo hooks: seams are swapped at check time in a scratch copy by bin/simrewrite)",
-               "enable": "./check copies /repo/*.go to a mktemp directory, rewrites the sync / go / range-over-map / os.ReadFile seams to verif.local/simrt and builds the harness against that copy with -modfile",
+               "enable": "./check copies the working tree of /repo to a mktemp directory, rewrites the sync / go / range-over-map / channel / select / time / context / os.ReadFile / os.Open seams of the root package to verif.local/simrt (bin/simrewrite, rules R1-R14) and builds the harness against that copy with -modfile",
                "baseline_off_cmd": "cd /repo && GOFLAGS=-mod=mod GOPROXY=off GOSUMDB=off go test -json -vet=off -count=1 -timeout 25m ./...",
                "source_commits": [], "add_only": True},
      "engines": [{"name": "async", "path": "harness/async.go", "serves_properties": ["C15"], "kind_free_text": "seeded goroutine schedules, concurrent readers, race detection on the serialised execution"},
